@@ -226,6 +226,41 @@ def run(rep, pdb, tier):
         det = "multiplier=%s stored at al[(k,i-k-1)]; shifted row update=%s" % (show(mdef, ctx) if mdef else None, oku)
     rep.add("row-op-pair/decompose", "the multiplier au[(i,0)]/au[(k,0)] (pivot is the divisor) is stored at al[(k, i-k-1)] and used for the left-shifted row update over columns 1..mm; *d starts at one",
             okm and okd0, dec["body"], det, where=loc(dec["body"]))
+    # ---- initial left shift of the first m1 rows (l is an induction variable: l = m1 - i before its decrement)
+    rule = ("for each of the first m1 rows i: entries j in (m1-i)..mm move to j-(m1-i), then exactly the m1-i vacated trailing slots (mm-(m1-i))..mm are zeroed "
+            "(l starts at m1 and is decremented once per row, so l = m1 - i before and m1 - i - 1 after the decrement)")
+    first = [n for n in dec["body"].get("stmts", []) if strip(n.get("e") or {}).get("k") == "For"]
+    okls, det = False, "first loop of decompose not recognised"
+    if first:
+        lp0 = strip(first[0]["e"])
+        r0 = for_range(ctx, lp0)
+        inner = [n for n in lp0["body"].get("stmts", []) if strip(n.get("e") or {}).get("k") == "For"]
+        tl = lp0["body"].get("expr")
+        if tl is not None and strip(tl).get("k") == "For":
+            inner.append({"e": tl})
+        decs = [e for e in effs if e.kind == "assignop" and e.op == "-=" and e.value == num(1) and e.loops == [lp0]]
+        if r0 is not None and r0[1:5] == (num(0), M1, False, False) and len(inner) == 2 and len(decs) == 1 and decs[0].target[0] == "var":
+            i0 = r0[0]
+            lv = decs[0].target
+            lb = [e for e in effs if e.kind == "assign" and e.target == lv and not e.loops and _pos(e.node) < _pos(lp0)]
+            linit = ctx.binds.get(lv[1])
+            init_ok = (linit is not None and linit.init is not None and ctx.term(linit.init) == M1 and not lb) or (lb and lb[-1].value == M1)
+            before, after = lin_sub(M1, i0), lin_sub(lin_sub(M1, i0), num(1))
+
+            def val(t, node):
+                return subst_term(t, {lv: before if _pos(node) < _pos(decs[0].node) else after})
+            la, lb2 = strip(inner[0]["e"]), strip(inner[1]["e"])
+            ra, rb = for_range(ctx, la), for_range(ctx, lb2)
+            sa = [e for e in effs if e.kind == "set" and e.target == AU and e.loops == [lp0, la]]
+            sb = [e for e in effs if e.kind == "set" and e.target == AU and e.loops == [lp0, lb2]]
+            if ra and rb and len(sa) == 1 and len(sb) == 1:
+                ja, jb = ra[0], rb[0]
+                shift = val(ra[1], la) == before and ra[2] == MM and not ra[3] and val(sa[0].index, sa[0].node) == ("tup", i0, lin_sub(ja, before)) and sa[0].value == ("idx", AU, ("tup", i0, ja))
+                fill = val(rb[1], lb2) == lin_sub(MM, before) and rb[2] == MM and not rb[3] and sb[0].index == ("tup", i0, jb) and sb[0].value[0] == "call" and str(sb[0].value[1]).endswith("Zero::zero")
+                order = _pos(la) < _pos(decs[0].node) < _pos(lb2) or _pos(la) < _pos(lb2)
+                okls = bool(init_ok and shift and fill and order)
+                det = "l starts at m1=%s shift by m1-i=%s zero exactly the vacated slots=%s" % (bool(init_ok), shift, fill)
+    rep.add("left-shift/decompose", rule, okls, first[0]["e"] if first else dec["body"], det)
     # ---- det
     fn = pdb.fn("%s::det" % B)
     rule = "det multiplies the sign d returned by decompose by au[(i,0)] for i over the full range 0..n"
